@@ -113,8 +113,10 @@ CLAIMED["C06"] = (
     "Coq proof (last-binding characterisation of folding fields into a label set; case analysis of every parser stage) + differential correspondence with generator-computed expected label sets",
     "Theorems stage_keeps_line (all five parser stages never drop; only unpack may replace the line, by _entry), json_all_exposes / json_some_only / logfmt_exposes (every field exposed with exactly its value, last duplicate wins, "
     "existing label overridden, nothing else touched), *_unparsable_flagged, error_label_set / first_error_wins, pattern_two_captures / capture_is_first_occurrence. The check renders documents (JSON incl. nested/duplicate/escaped/"
-    "malformed, logfmt, packed entries, delimiter-separated lines) and demands count = N, unchanged lines and the complete expected label set of every entry. PARTIAL: jsonexpr path parsing and the regexp stage's submatch are "
-    "compared with the model only (oracle), no theorem.",
+    "malformed, logfmt, packed entries, delimiter-separated lines) and demands count = N, unchanged lines and the complete expected label set of every entry. The parsers behind two stages are modelled as well: "
+    "jsonexpr.Parse (Model/JsonPath.v, theorem path_expression_roundtrip: every expression of .field / [\"quoted key\"] / [index] items denotes exactly those selectors) and logqlpattern.Parse (Model/PatternParse.v, theorem "
+    "pattern_roundtrip); check parts `jsonpath-parse` and `pattern-parse` compare them with the implementation on grammar-derived, mutated and random inputs (D31 was found that way). PARTIAL: the regexp stage's submatch is an oracle; "
+    "strconv.Unquote / Atoi inside the path parser are modelled on a fragment (printable ASCII, 18 digits).",
     ENG_NOTE, "DESIGN.md 4 C06")
 
 MET_NOTE = ("Trusted: Coq kernel + vm_compute with primitive binary64 floats (aggregators modelled operation by operation; same IEEE-754 arithmetic as Go on amd64); the hand-written metric model "
